@@ -95,3 +95,38 @@ def norm_md(md):
 def all_finite(snap):
     return all(v == v and v not in (float("inf"), float("-inf"))
                for row in snap["rows"] for v in row)
+
+
+def check_lookups(t, snap=None, what="result"):
+    """ID-based access must describe the same table as positional access:
+    index()/exists() give each ID its position and data(id)/
+    get_value_by_ids() return that ID's own vector / cell.  Raises
+    Violation."""
+    from .core import Violation
+    snap = snap or snapshot(t)
+    if not snap["obs"] or not snap["samp"]:
+        return
+    rows = snap["rows"]
+    for axis, key in (("observation", "obs"), ("sample", "samp")):
+        for k, i in enumerate(snap[key]):
+            if not t.exists(i, axis=axis):
+                raise Violation("lookup-inconsistent", "%s: %s id %r is "
+                                "listed by ids() but exists() is False" %
+                                (what, axis, i))
+            if t.index(i, axis) != k:
+                raise Violation("lookup-inconsistent", "%s: index(%r, %s) = "
+                                "%r, its position is %d" %
+                                (what, i, axis, t.index(i, axis), k))
+            want = rows[k] if axis == "observation" else \
+                [r[k] for r in rows]
+            got = t.data(i, axis=axis).tolist()
+            if got != want:
+                raise Violation("lookup-inconsistent", "%s: data(%r, %s) = "
+                                "%r, the vector of that id is %r" %
+                                (what, i, axis, got, want))
+    o, s_ = snap["obs"][-1], snap["samp"][-1]
+    if float(t.get_value_by_ids(o, s_)) != rows[-1][-1]:
+        raise Violation("lookup-inconsistent", "%s: get_value_by_ids(%r, %r)"
+                        " = %r, matrix says %r" %
+                        (what, o, s_, t.get_value_by_ids(o, s_),
+                         rows[-1][-1]))
